@@ -99,7 +99,7 @@ def is_ascii(b: bytes):
     return all(x < 0x80 for x in b)
 
 
-def project(res, text: bytes, fields):
+def project(res, text: bytes, fields, drop_repl=False):
     """restrict a canonical result to the fields a property is about"""
     ms = parse_matches(res)
     if ms is None:
@@ -110,6 +110,8 @@ def project(res, text: bytes, fields):
         if not is_ascii(text):
             d.pop("c1", None)
             d.pop("c2", None)
+        if drop_repl:
+            d.pop("repl", None)
         out.append(d)
     return json.dumps(out, sort_keys=True)
 
@@ -185,7 +187,14 @@ def compare_run(ctx, cases, impl, model, proj_fields=ALL_FIELDS, what="matches d
             # step budgets differ slightly between the two sides; termination is C10's business
             counters["budget_skipped"] += 1
             continue
-        pi, pm = project(ires, text, proj_fields), project(mres, text, proj_fields)
+        # not a difference of the engine, so not compared: a replacement TEXT that spells out a column of a non-ASCII
+        # text (the engine counts columns per character inside one read, the model per byte; column claims are about
+        # ASCII texts), or the built-in `filename` when the text went through a scratch file (its path vs "text")
+        viafile = len(parts) > 3 and parts[3] == "viafile"
+        drop = (not is_ascii(text) and b"columnNumber" in src) or (viafile and b"filename" in src)
+        if drop:
+            counters["replacement_not_compared"] = counters.get("replacement_not_compared", 0) + 1
+        pi, pm = project(ires, text, proj_fields, drop), project(mres, text, proj_fields, drop)
         ms = parse_matches(mres)
         if ms:
             counters["with_matches"] += 1
@@ -273,6 +282,9 @@ def pred_failures(cases, impl, model, pred):
                 except Exception:
                     return b" | ".join(_un(y) if y.startswith("x") else y.encode() for y in x.split(",")) if "," in x else x.encode()
             src, text = _un(parts[1]), _un(parts[2] if len(parts) > 2 else "")
+            if pred == "replacement" and parts[0] == "run" and (
+                    (not is_ascii(text) and b"columnNumber" in src) or (len(parts) > 3 and parts[3] == "viafile" and b"filename" in src)):
+                continue   # see compare_run: a replacement text that spells out such a column / the scratch path
             ires = C.fields(impl.get(cid, "")).get("RES", "?")
             out.append(dict(id=cid, src=src, text=text, impl=ires, model=f.get("RES", "?"),
                             what=f"the implementation's result fails the executable predicate Spec.{pred}"))
